@@ -1,3 +1,4 @@
+import Just.Generated.Tables
 /-
 Model of environment-file handling: `load_dotenv` (src/load_dotenv.rs), the flag/setting
 precedence of src/config.rs, `Justfile::run` (`config.load_dotenv`).
@@ -45,7 +46,7 @@ def load (c : Cfg) (fs : FS) : Res :=
   else if !active c then .inactive
   else
     let viaFilename : Res :=
-      let name := (filenameOf c).getD ".env"
+      let name := (filenameOf c).getD Generated.defaultDotenvName
       match findFile name fs.ancestors 0 with
       | some l => .loadedFile l name
       | none => if c.setRequired then .errorRequired else .empty
